@@ -96,16 +96,22 @@ theorem search_upper_eq (key : Nat → Int) (v : Int) (n k : Nat)
 /-! ### consequences of well-formedness -/
 
 theorem chg_nonneg (d : Data) (i : Nat) : 0 ≤ d.chg i := by
-  unfold Data.chg; split
-  · omega
-  · split <;> omega
+  unfold Data.chg; split <;> omega
+
+theorem chg_ge' (d : Data) (i : Nat) : d.o i - d.oPrev i ≤ d.chg i ∧ d.oPrev i - d.o i ≤ d.chg i := by
+  unfold Data.chg; split <;> omega
+
+theorem oPrev_pos (d : Data) (i : Nat) (hi : 0 < i) : d.oPrev i = d.o (i - 1) := by
+  unfold Data.oPrev; rw [if_neg (by omega)]
+
+theorem oPrev_zero (d : Data) : d.oPrev 0 = (d.lt 0).utcOffset := rfl
+
+theorem prevRec_offset (d : Data) (i : Nat) : (d.prevRec i).utcOffset = d.oPrev i := by
+  unfold Data.prevRec Data.oPrev; split <;> rfl
 
 theorem chg_ge (d : Data) (i : Nat) (hi : 0 < i) :
     d.o i - d.o (i - 1) ≤ d.chg i ∧ d.o (i - 1) - d.o i ≤ d.chg i := by
-  unfold Data.chg
-  have : ¬ i = 0 := by omega
-  simp only [this, if_false]
-  split <;> omega
+  have := chg_ge' d i; rw [oPrev_pos d i hi] at this; exact this
 
 /-- the gap after transition `i` exceeds the changes at both ends -/
 theorem WF.gap {d : Data} (h : WF d) (i : Nat) (hi : i + 1 < d.n) :
@@ -202,23 +208,22 @@ theorem findLocal_at {d : Data} (h : WF d) {k : Nat} {L : Int} (post : Bool) (hk
     (h1 : d.u k + d.o k ≤ L) (h2 : k + 1 < d.n → L < d.u (k + 1) + d.o (k + 1)) :
     findLocal d L post =
       if k + 1 < d.n ∧ d.u (k + 1) - 1 + d.o k < L then (if post then d.lrec (k + 1) else d.lrec k)
-      else if 0 < k ∧ L ≤ d.u k - 1 + d.o (k - 1) then (if post then d.lrec k else d.lrec (k - 1))
+      else if L ≤ d.u k - 1 + d.oPrev k then (if post then d.lrec k else d.prevRec k)
       else d.lrec k := by
   have hb := localBound_eq h hk h1 h2
   have hf := not_useFirst h hk h1
   have eu : ∀ i, (d.tr i).utctime = d.u i := fun _ => rfl
   have eo : ∀ i, (d.lrec i).utcOffset = d.o i := fun _ => rfl
   simp only [findLocal, localUseFirst, hf, if_false, hb, localAfterLast, Nat.add_sub_cancel, priorSecond,
-    priorSecond2, isSkip, isRepeat, hasPrior, eu, eo, decide_eq_true_eq]
+    priorSecond2, priorSecondFirst, priorIdxFirst, isSkip, isRepeat, hasPrior, eu, eo, decide_eq_true_eq]
   by_cases he : k + 1 = d.n
   · have hn1 : ¬ (k + 1 < d.n) := by omega
     simp only [he, if_true, not_true_eq_false, false_and, if_false, Nat.lt_irrefl]
     by_cases hk0 : k = 0
     · subst hk0
-      simp only [ne_eq, not_true_eq_false, if_false, Nat.lt_irrefl, false_and, Nat.zero_sub]
-      split <;> simp
-    · have : 0 < k := by omega
-      simp only [ne_eq, hk0, not_false_eq_true, if_true, this, true_and]
+      simp only [ne_eq, not_true_eq_false, if_false, Data.oPrev, Data.prevRec, if_true]
+    · have hp : 0 < k := by omega
+      simp only [ne_eq, hk0, not_false_eq_true, if_true, Data.oPrev, Data.prevRec, if_false]
   · have hlt : k + 1 < d.n := by omega
     simp only [he, if_false, not_false_eq_true, true_and, hlt]
     by_cases hs : d.u (k + 1) - 1 + d.o k < L
@@ -226,14 +231,13 @@ theorem findLocal_at {d : Data} (h : WF d) {k : Nat} {L : Int} (post : Bool) (hk
     · simp only [hs, if_false]
       by_cases hk0 : k = 0
       · subst hk0
-        simp only [ne_eq, not_true_eq_false, if_false, Nat.lt_irrefl, false_and, Nat.zero_sub]
-        split <;> simp
-      · have : 0 < k := by omega
-        simp only [ne_eq, hk0, not_false_eq_true, if_true, this, true_and]
+        simp only [ne_eq, not_true_eq_false, if_false, Data.oPrev, Data.prevRec, if_true]
+      · have hp : 0 < k := by omega
+        simp only [ne_eq, hk0, not_false_eq_true, if_true, Data.oPrev, Data.prevRec, if_false]
 
 /-- `t` (in era `k`) lies in the local period that transition `k` made occur a second time: it is the
 **later** of the two instants with this local time -/
-def LaterCopy (d : Data) (k : Nat) (t : Int) : Prop := 0 < k ∧ t + d.o k < d.u k + d.o (k - 1)
+def LaterCopy (d : Data) (k : Nat) (t : Int) : Prop := t + d.o k < d.u k + d.oPrev k
 
 /-- `t` (in era `k`) lies in the local period that transition `k+1` will repeat: it is the
 **earlier** of the two instants with this local time -/
@@ -245,9 +249,10 @@ instance (d : Data) (k : Nat) (t : Int) : Decidable (EarlierCopy d k t) := by un
 /-- under well-formedness no local time occurs three times -/
 theorem not_both {d : Data} (h : WF d) {k : Nat} {t : Int} (hk : InEra d k t) :
     ¬ (EarlierCopy d k t ∧ LaterCopy d k t) := by
-  rintro ⟨⟨a1, a2⟩, ⟨b1, b2⟩⟩
+  rintro ⟨⟨a1, a2⟩, b2⟩
+  unfold LaterCopy at b2
   have := h.gap k a1
-  have := chg_ge d k b1
+  have := chg_ge' d k
   have := chg_ge d (k + 1) (by omega)
   simp only [Nat.add_sub_cancel] at this
   obtain ⟨_, _, h3⟩ := hk
@@ -261,7 +266,7 @@ it is the later one (side `false` gives the era before it), on both sides otherw
 theorem findLocal_era {d : Data} (h : WF d) {k : Nat} {t : Int} (hk : InEra d k t) (post : Bool) :
     findLocal d (t + d.o k) post =
       if EarlierCopy d k t then (if post then d.lrec (k + 1) else d.lrec k)
-      else if LaterCopy d k t then (if post then d.lrec k else d.lrec (k - 1))
+      else if LaterCopy d k t then (if post then d.lrec k else d.prevRec k)
       else d.lrec k := by
   obtain ⟨h1, h2, h3⟩ := hk
   by_cases he : EarlierCopy d k t
@@ -283,9 +288,10 @@ theorem findLocal_era {d : Data} (h : WF d) {k : Nat} {t : Int} (hk : InEra d k 
       have g2 := h.gap (k + 1) hh
       have := chg_nonneg d (k + 1 + 1)
       omega
-    have hy : t + d.o k ≤ d.u (k + 1) - 1 + d.o k := by omega
+    have hy : t + d.o k ≤ d.u (k + 1) - 1 + d.oPrev (k + 1) := by rw [oPrev_pos d (k + 1) (by omega), Nat.add_sub_cancel]; omega
     have hz : EarlierCopy d k t := ⟨e1, e2⟩
-    simp only [hx, if_false, Nat.add_sub_cancel, Nat.zero_lt_succ, true_and, hy, if_true, hz]
+    have hpr : d.prevRec (k + 1) = d.lrec k := by unfold Data.prevRec; rw [if_neg (by omega), Nat.add_sub_cancel]
+    simp only [hx, if_false, hy, if_true, hz, hpr]
   · have hb : k + 1 < d.n → t + d.o k < d.u (k + 1) + d.o (k + 1) := by
       intro hh
       unfold EarlierCopy at he
@@ -296,8 +302,8 @@ theorem findLocal_era {d : Data} (h : WF d) {k : Nat} {t : Int} (hk : InEra d k 
       have := h3 hh
       omega
     simp only [hx, if_false, he]
-    have : (0 < k ∧ t + d.o k ≤ d.u k - 1 + d.o (k - 1)) ↔ LaterCopy d k t := by
-      unfold LaterCopy; constructor <;> rintro ⟨a, b⟩ <;> exact ⟨a, by omega⟩
+    have : (t + d.o k ≤ d.u k - 1 + d.oPrev k) ↔ LaterCopy d k t := by
+      unfold LaterCopy; constructor <;> intro a <;> omega
     simp only [this]
 
 /-- **skipped local times**: a local time that transition `k+1` jumped over (it lies between the last
@@ -316,7 +322,7 @@ theorem findUtc_fixed {d : Data} (hn : d.n = 0) (t : Int) : findUtc d t = d.lt 0
   simp only [findUtc, utcUseFirst, hn, true_or, if_true]
 
 theorem findLocal_fixed {d : Data} (hn : d.n = 0) (L : Int) (post : Bool) : findLocal d L post = d.lt 0 := by
-  simp only [findLocal, localUseFirst, hn, true_or, if_true]
+  simp only [findLocal, localUseFirst, hn, true_or, if_true, firstSkipPost, not_true_eq_false, and_false, false_and, if_false]
 
 /-- before the first transition both look-ups use `localtimes.front()` -/
 theorem findUtc_before {d : Data} (t : Int) (ht : t < d.u 0) : findUtc d t = d.lt 0 := by
@@ -336,5 +342,46 @@ theorem era_unique {d : Data} (h : WF d) {k k' : Nat} {t : Int} (hk : InEra d k 
       have := b3 (by omega)
       omega
     · omega
+
+/-! ### the first transition: before it `localtimes.front()` is in force -/
+
+/-- the local look-up for a local time before the first transition's own local start -/
+theorem findLocal_beforeFirst {d : Data} (h : WF d) (hn : 0 < d.n) {L : Int} (hL : L < d.u 0 + d.o 0) (post : Bool) :
+    findLocal d L post =
+      if post = true ∧ d.u 0 - 1 + (d.lt 0).utcOffset < L then d.lrec 0 else d.lt 0 := by
+  have hl := h.loc 0 hn
+  have hlt : L < (d.tr 0).localtime := by omega
+  have hne : ¬ d.n = 0 := by omega
+  have eu : (d.tr 0).utctime = d.u 0 := rfl
+  simp only [findLocal, localUseFirst, hlt, or_true, if_true, firstSkipPost, hne, not_false_eq_true, and_true, eu]
+
+/-- the local look-up for the local time of an instant `t` BEFORE the first transition: the record in force there
+(`localtimes.front()`) - on side `post = false` when the first transition repeats that local time (side `true` gives
+the first transition's record), on both sides otherwise -/
+theorem findLocal_before {d : Data} (h : WF d) (hn : 0 < d.n) {t : Int} (ht : t < d.u 0) (post : Bool) :
+    findLocal d (t + (d.lt 0).utcOffset) post =
+      if d.u 0 + d.o 0 ≤ t + (d.lt 0).utcOffset then (if post then d.lrec 0 else d.lt 0) else d.lt 0 := by
+  by_cases hc : d.u 0 + d.o 0 ≤ t + (d.lt 0).utcOffset
+  · have c0 := chg_ge' d 0
+    rw [oPrev_zero] at c0
+    have hb : 0 + 1 < d.n → t + (d.lt 0).utcOffset < d.u (0 + 1) + d.o (0 + 1) := by
+      intro hh
+      have g := h.gap 0 hh
+      have c1 := chg_ge d (0 + 1) (by omega)
+      simp only [Nat.add_sub_cancel] at c1
+      omega
+    rw [findLocal_at h post hn hc hb]
+    have hx : ¬ (0 + 1 < d.n ∧ d.u (0 + 1) - 1 + d.o 0 < t + (d.lt 0).utcOffset) := by
+      rintro ⟨hh, hl⟩
+      have g := h.gap 0 hh
+      have := chg_nonneg d (0 + 1)
+      omega
+    have hy : t + (d.lt 0).utcOffset ≤ d.u 0 - 1 + d.oPrev 0 := by rw [oPrev_zero]; omega
+    have hp : d.prevRec 0 = d.lt 0 := rfl
+    simp only [hx, if_false, hy, if_true, hc, hp]
+  · rw [findLocal_beforeFirst h hn (by omega) post]
+    have : ¬ (post = true ∧ d.u 0 - 1 + (d.lt 0).utcOffset < t + (d.lt 0).utcOffset) := by
+      rintro ⟨_, hl⟩; omega
+    simp only [this, if_false, hc]
 
 end MuduoVerif.Zone
